@@ -93,3 +93,58 @@ def obligations(prop="C05", replay=None):
     if len([1 for _, _, e, _ in found if e != "self"]) < 2:
         out.append(OR(id=f"{prop}.S.templates.entity_links.anchor", status=UNKNOWN, kind="S", target="ford/templates", detail=f"expected the hard-coded entity links of macros.html, found {found}"))
     return out
+
+
+def summary_obligations(prop="C05", replay=None):
+    """macro `docstring` of macros.html prints the documentation of procedures shown on another entity's page (specifics of a generic interface, targets of bindings).  The
+    summary form ends in a "Read more" link to the procedure's own page (FortranBase.markdown), so it may be printed only for an entity that has one: the site
+    `{{ entity | meta("summary") }}` lies in the else-branch of a test with the disjunct `not entity.visible` (or under a test with the conjunct `entity.visible`)."""
+    import jinja2, jinja2.nodes as N
+    oid = f"{prop}.S.templates.macros.docstring.summary_only_for_an_entity_with_a_page"
+    tdir = os.path.join(os.path.dirname(loader.module_path("ford.output")), "templates")
+    try:
+        tree = jinja2.Environment().parse(open(os.path.join(tdir, "macros.html"), encoding="utf-8").read())
+    except Exception as e:
+        return [OR(id=oid, status=UNKNOWN, kind="S", target="ford/templates/macros.html", detail=f"{type(e).__name__}: {e}")]
+    macro = [m for m in tree.find_all(N.Macro) if m.name == "docstring"]
+    if len(macro) != 1:
+        return [OR(id=oid, status=UNKNOWN, kind="S", target="ford/templates/macros.html", detail="macro `docstring` not found")]
+    ent = macro[0].args[0].name if macro[0].args else "entity"
+
+    def disjuncts(t):
+        return disjuncts(t.left) + disjuncts(t.right) if isinstance(t, N.Or) else [t]
+    is_vis = lambda t: isinstance(t, N.Getattr) and t.attr == "visible" and _txt(t.node) == ent
+    is_not_vis = lambda t: isinstance(t, N.Not) and is_vis(t.node)
+    found = []
+
+    def visit(node, guarded):
+        if isinstance(node, N.If):
+            pos = any(is_vis(c) for c in _conjuncts(node.test))
+            neg = any(is_not_vis(d) for d in disjuncts(node.test))
+            for b in node.body:
+                visit(b, guarded or pos)
+            g = guarded or neg
+            for e in node.elif_:
+                for b in e.body:
+                    visit(b, g or any(is_vis(c) for c in _conjuncts(e.test)))
+                g = g or any(is_not_vis(d) for d in disjuncts(e.test))
+            for b in node.else_:
+                visit(b, g)
+            return
+        if isinstance(node, N.Filter) and node.name == "meta" and node.args and isinstance(node.args[0], N.Const) and node.args[0].value == "summary":
+            found.append((node.lineno, guarded))
+        for c in node.iter_child_nodes():
+            visit(c, guarded)
+    for b in macro[0].body:
+        visit(b, False)
+    ok = bool(found) and all(g for _, g in found)
+    r = OR(id=oid, status=PROVED if ok else (UNKNOWN if not found else REFUTED), kind="S", role="pre", backend="jinja2-ast", target="ford/templates/macros.html",
+           desc=f"macro docstring: `{{{{ {ent} | meta('summary') }}}}` (with its Read-more link) is printed only when `{ent}.visible`; a procedure without a page is shown with its full documentation")
+    if not found:
+        r.detail = "no summary output in macro docstring (restructured?)"
+    elif not ok:
+        r.witness = {"sites": found}
+        r.detail = "the summary of a procedure that has no page is printed: its Read-more link leads to a page that is not written and the rest of its documentation is lost"
+        if replay:
+            r.replay = replay()
+    return [r]
